@@ -32,7 +32,20 @@ def cases_for(topic, rng, tier):
             yield "scr_add %s %s" % (impl.lst(impl.cmdS, a), impl.lst(impl.cmdS, b)), "x-scr-add"
             yield "scr_eq %s %s" % (impl.lst(impl.cmdS, a), impl.lst(impl.cmdS, rng.choice([a, b]))), "x-scr-eq"
             yield "scr_repr " + impl.lst(impl.cmdS, a), "x-scr-repr"
+        for _ in range(40 * n):
+            ln = rng.choice([0, 1, 2, 4, 8, 32, 33])
+            v = rng.choice([0, 1, 255, 256, 256 ** ln - 1 if ln else 0, 256 ** ln, rng.getrandbits(8 * ln + 3)])
+            yield "i2be %d %d" % (v, ln), "x-int-bytes"
+            yield "i2le %d %d" % (v, ln), "x-int-bytes"
+            b_ = rb(rng.choice([0, 1, 2, 8, 32, 33]))
+            yield "be2i " + hx(b_), "x-bytes-int"
+            yield "le2i " + hx(b_), "x-bytes-int"
     elif topic == "b32addr":
+        for _ in range(20 * n):
+            kind = rng.choice(["p2pkh", "p2sh", "p2wpkh", "p2wsh"])
+            h = rb(rng.choice([20, 32, 20, 32, 0, 1, 19, 21, 40, 41]))
+            wv = rng.choice([0, 0, 0, 1, 16, 17])
+            yield "h_addr %s %s %s %d" % (kind, hx(h), rng.choice("01"), wv), "x-helper-address"
         import btc_hd_wallet.bech32 as b
         for _ in range(15 * n):
             hrp = rng.choice(["bc", "tb", "bcrt", "x"])
